@@ -116,8 +116,14 @@ Definition field_or_null (k : str) (j : json) : json :=
    Output is small when model and implementation agree. *)
 Definition run_case {A} (predict : A -> json) (c : A * json) : json :=
   let p := predict (fst c) in
-  let tags := field_or_null (s "tags") p in
-  let body := without_key (s "tags") p in
-  if json_eqb body (snd c)
-  then JObj [(s "agree", JBool true); (s "tags", tags)]
-  else JObj [(s "agree", JBool false); (s "tags", tags); (s "pred", body)].
+  match p with
+  | JObj [(k, JStr why)] =>
+      if str_eqb k (s "unmodelled") then JObj [(s "unmodelled", JStr why)]
+      else JObj [(s "agree", JBool (json_eqb p (snd c))); (s "tags", JArr []); (s "pred", p)]
+  | _ =>
+      let tags := field_or_null (s "tags") p in
+      let body := without_key (s "tags") p in
+      if json_eqb body (snd c)
+      then JObj [(s "agree", JBool true); (s "tags", tags)]
+      else JObj [(s "agree", JBool false); (s "tags", tags); (s "pred", body)]
+  end.
